@@ -1,9 +1,12 @@
 (* C12 — Keys, parameters and keysets survive serialization unchanged.
    Only statements + `exact`; proofs live in proofs/ProtoWireProofs.v and
-   proofs/SerialProofs.v; models in model/ProtoWire.v, model/Serial.v,
+   proofs/SerialProofs.v, proofs/SerialNormProofs.v, proofs/SerialNormalFormProofs.v
+   (the explicit big-integer normal form) and proofs/SerialRegistryProofs.v (the
+   keyset theorems at the registry); models in model/ProtoWire.v, model/Serial.v,
    model/SerialTables.v (enum tables extracted from the Go switch statements). *)
 From Coq Require Import List NArith Bool.
-From Tink Require Import Bytes ProtoWire ProtoWireProofs SerialTables Serial SerialProofs SerialNormProofs.
+From Tink Require Import Bytes ProtoWire ProtoWireProofs SerialTables Serial SerialProofs SerialNormProofs
+  SerialNormalFormProofs SerialRegistryProofs.
 Import ListNotations.
 Open Scope N_scope.
 
@@ -305,3 +308,329 @@ Proof.
     + intros e [<-|[<-|[]]]; eexists; repeat split; reflexivity.
   - eexists. split; [vm_compute; reflexivity|]. split; vm_compute; reflexivity.
 Qed.
+
+(* ================================================================== *)
+(* 6. the big-integer normal form, explicitly (C12_key_roundtrip assumes
+      normalise ... = Some (gk_fields k): here is what that means)       *)
+(* ================================================================== *)
+
+(* An EC coordinate / private scalar is left unchanged by parse-then-serialize
+   exactly when it is cs+1 bytes long with a zero first byte (what
+   BigIntBytesToFixedSizeBuffer(_, coordinateSize+1) writes) ... *)
+Theorem C12_ec_coordinate_fixed_iff :
+  forall cs b, ec_coord_norm cs b = Some b <-> length b = (cs + 1)%nat /\ hd 1 b = 0.
+Proof. exact ec_coord_norm_fixed_iff. Qed.
+Print Assumptions C12_ec_coordinate_fixed_iff.
+
+(* ... and then it is 0x00 followed by the cs-byte big-endian encoding of its value. *)
+Theorem C12_ec_coordinate_fixed_value :
+  forall cs b, wfb b -> ec_coord_norm cs b = Some b ->
+    b = 0 :: be_bytes cs (be_val b) /\ be_val b < 256 ^ N.of_nat cs.
+Proof. exact ec_coord_fixed_value. Qed.
+Print Assumptions C12_ec_coordinate_fixed_value.
+
+(* big.Int.Bytes(): unchanged exactly when there is no leading zero byte. *)
+Theorem C12_bigint_stripped_iff :
+  forall b, strip_zeros b = b <-> b = [] \/ hd 0 b <> 0.
+Proof. exact strip_zeros_fixed_iff. Qed.
+Print Assumptions C12_bigint_stripped_iff.
+
+(* big.Int.Bytes() then signature.Pad to n bytes (RSA d, dp, dq, crt):
+   unchanged exactly when the field is n bytes long. *)
+Theorem C12_rsa_padded_iff :
+  forall n b, pad_left (strip_zeros b) n = Some b <-> length b = n.
+Proof. exact pad_strip_fixed_iff. Qed.
+Print Assumptions C12_rsa_padded_iff.
+
+(* For every type: a key message is a fixed point of the normalisation exactly
+   when the explicit check nf_msg accepts it (EC: x, y and the scalar in
+   coordinate form, the public key message present; RSA: e, p, q (and n for
+   signature/) without leading zeros, |d| = |n|, |dp| = |crt| = |p|, |dq| = |q|). *)
+Theorem C12_normal_form_iff :
+  forall k s m, normalise k s m = Some m <-> nf_msg k s m = true.
+Proof. exact normalise_fixed_iff_nf. Qed.
+Print Assumptions C12_normal_form_iff.
+
+Theorem C12_normalisation_output_in_normal_form :
+  forall k s m m', normalise k s m = Some m' -> nf_msg k s m' = true.
+Proof. exact normalise_output_nf. Qed.
+Print Assumptions C12_normalisation_output_in_normal_form.
+
+(* C12_key_roundtrip with the explicit form in place of the fixed-point equation. *)
+Theorem C12_key_roundtrip_explicit_normal_form :
+  forall (T : ktype) (k : gkey) (s : kser),
+    wf_schema (kt_schema T) = true ->
+    wf_msg (kt_schema T) (gk_fields k) = true ->
+    N.of_nat (length (encode (kt_schema T) (gk_fields k))) < 2 ^ 64 ->
+    nf_msg (kt_norm T) (kt_schema T) (gk_fields k) = true ->
+    variant_ok T k ->
+    serialize_key T k = Some s ->
+    parse_key T s = Some k.
+Proof. exact parse_serialize_key_nf. Qed.
+Print Assumptions C12_key_roundtrip_explicit_normal_form.
+
+(* Keys come out of constructors that normalise: for ANY well-formed message m
+   (integers with missing or extra leading zeros), the key built from the
+   normalised message is in the form and round-trips. *)
+Theorem C12_constructed_key_roundtrip :
+  forall T url mat v id m m' s,
+    wf_schema (kt_schema T) = true ->
+    wf_msg (kt_schema T) m = true ->
+    normalise (kt_norm T) (kt_schema T) m = Some m' ->
+    variant_ok T (mkGkey url mat v id m') ->
+    N.of_nat (length (encode (kt_schema T) m')) < 2 ^ 64 ->
+    serialize_key T (mkGkey url mat v id m') = Some s ->
+    nf_msg (kt_norm T) (kt_schema T) m' = true /\
+    wf_msg (kt_schema T) m' = true /\
+    parse_key T s = Some (mkGkey url mat v id m').
+Proof. exact constructed_key_roundtrip. Qed.
+Print Assumptions C12_constructed_key_roundtrip.
+
+(* Whatever the parser accepts, the key object it builds is well-formed and in the form. *)
+Theorem C12_parsed_key_in_normal_form :
+  forall T s k, parse_key T s = Some k ->
+    wf_msg (kt_schema T) (gk_fields k) = true /\ nf_msg (kt_norm T) (kt_schema T) (gk_fields k) = true.
+Proof. exact parsed_key_nf. Qed.
+Print Assumptions C12_parsed_key_in_normal_form.
+
+(* The public key message inside a private key in the form is in the form of
+   the public type. *)
+Theorem C12_normal_form_public_part :
+  forall k s m ps pm, is_priv_kind k = true -> nf_msg k s m = true ->
+    get_field s m 2 = Some (TMsg ps, VMsg (Some pm)) -> nf_msg (pub_kind k) ps pm = true.
+Proof. exact nf_priv_public_part. Qed.
+Print Assumptions C12_normal_form_public_part.
+
+(* a P-256 ECDSA public key message with a 31-byte x and a 34-byte y is not in
+   the form; normalisation yields 33 + 33 bytes, which is, and that key round-trips *)
+Example C12_nonvacuous_unnormalised_ecdsa :
+  nf_msg NKEcdsaPub ecdsa_pub_schema ex_ecdsa_in = false /\
+  normalise NKEcdsaPub ecdsa_pub_schema ex_ecdsa_in = Some ex_ecdsa_nf /\
+  nf_msg NKEcdsaPub ecdsa_pub_schema ex_ecdsa_nf = true /\
+  ktype_of ecdsa_pub_url ecdsa_pub_schema = Some ecdsa_pub_T /\
+  kt_norm ecdsa_pub_T = NKEcdsaPub /\
+  serialize_key ecdsa_pub_T ex_ecdsa_key = Some ex_ecdsa_ser /\
+  parse_key ecdsa_pub_T ex_ecdsa_ser = Some ex_ecdsa_key /\
+  length (ks_value ex_ecdsa_ser) = 78%nat.
+Proof. exact ecdsa_p256_unnormalised_input. Qed.
+Example C12_nonvacuous_unnormalised_ecdsa_variant : variant_ok ecdsa_pub_T ex_ecdsa_key.
+Proof. exact ex_ecdsa_variant_ok. Qed.
+
+(* ================================================================== *)
+(* 7. keysets at the registry: K := dkey, ser_k := dser, par_k := dpar of
+      the registry  url |-> ktype_of url (schemas url).  The per-key round
+      trip is derived; what remains are explicit laws: the descriptors are
+      well-formed schemas, the AEAD decrypts what it encrypted, nothing
+      reaches 2^64 bytes.                                               *)
+(* ================================================================== *)
+
+(* Every key the registry's parser yields from a serialisation s0 (RAW => no id)
+   serialises (success included), to the same URL and material type, the same
+   id and prefix (LEGACY may come back as CRUNCHY; streaming keys come back as
+   RAW/0), and the result parses to the same key again. *)
+Theorem C12_registry_key_reserializes :
+  forall (schemas : bytes -> option schema),
+    (forall url sch, schemas url = Some sch -> wf_schema sch = true) ->
+    forall s0 k,
+      (ks_prefix s0 = prefix_raw -> ks_id s0 = 0) ->
+      dpar (registry schemas) s0 = Some k ->
+      exists s', dser k = Some s' /\
+        ks_url s' = ks_url s0 /\ ks_mat s' = ks_mat s0 /\
+        ((prefix_rel (ks_prefix s0) (ks_prefix s') /\ ks_id s' = ks_id s0) \/
+         (ks_prefix s' = prefix_raw /\ ks_id s' = 0 /\ exists T g, k = DK T g /\ kt_prefix T = PIgnored)) /\
+        (N.of_nat (length (ks_value s')) < 2 ^ 64 -> dpar (registry schemas) s' = Some k).
+Proof. exact dkey_reserialize. Qed.
+Print Assumptions C12_registry_key_reserializes.
+
+(* wf_dhandle (ids distinct and < 2^32, one primary and it is enabled, no unknown
+   status, every key in the image of the registry's parser under a known prefix
+   with the entry's id as id requirement, serialisations < 2^64 bytes) implies
+   the abstract wf_handle whose key_ok field was an assumption before. *)
+Theorem C12_registry_handle_keys_roundtrip :
+  forall (schemas : bytes -> option schema),
+    (forall url sch, schemas url = Some sch -> wf_schema sch = true) ->
+    forall es, wf_dhandle (registry schemas) es -> wf_handle dkey dser (dpar (registry schemas)) es.
+Proof. exact wf_dhandle_wf_handle. Qed.
+Print Assumptions C12_registry_handle_keys_roundtrip.
+
+Theorem C12_registry_entries_roundtrip :
+  forall (schemas : bytes -> option schema),
+    (forall url sch, schemas url = Some sch -> wf_schema sch = true) ->
+    forall es, wf_dhandle (registry schemas) es ->
+      exists ks, entries_to_proto_keyset dkey dser es = Some ks /\
+                 keyset_to_entries dkey (dpar (registry schemas)) ks = Some es /\
+                 wf_pkeyset ks = true.
+Proof. exact registry_entries_roundtrip. Qed.
+Print Assumptions C12_registry_entries_roundtrip.
+
+(* insecurecleartextkeyset.Write succeeds and Read gives the same handle back. *)
+Theorem C12_registry_cleartext_roundtrip :
+  forall (schemas : bytes -> option schema),
+    (forall url sch, schemas url = Some sch -> wf_schema sch = true) ->
+    forall es, wf_dhandle (registry schemas) es ->
+      exists b, write_cleartext dkey dser es = Some b /\
+        (N.of_nat (length b) < 2 ^ 64 -> read_cleartext dkey (dpar (registry schemas)) b = Some es).
+Proof. exact registry_cleartext_roundtrip. Qed.
+Print Assumptions C12_registry_cleartext_roundtrip.
+
+(* WriteWithAssociatedData succeeds and ReadWithAssociatedData gives the same
+   handle back, for every AEAD with dec ad (enc ad p) = p and every ad. *)
+Theorem C12_registry_encrypted_roundtrip :
+  forall (schemas : bytes -> option schema),
+    (forall url sch, schemas url = Some sch -> wf_schema sch = true) ->
+    forall (aead_enc : bytes -> bytes -> bytes) (aead_dec : bytes -> bytes -> option bytes),
+      (forall ad p, aead_dec ad (aead_enc ad p) = Some p) ->
+      forall es ad, wf_dhandle (registry schemas) es ->
+        exists b, write_encrypted dkey dser aead_enc es ad = Some b /\
+          (N.of_nat (length b) < 2 ^ 64 ->
+           (forall ks, entries_to_proto_keyset dkey dser es = Some ks -> N.of_nat (length (write_keyset ks)) < 2 ^ 64) ->
+           read_encrypted dkey (dpar (registry schemas)) aead_dec b ad = Some es).
+Proof. exact registry_encrypted_roundtrip. Qed.
+Print Assumptions C12_registry_encrypted_roundtrip.
+
+(* Public() on a handle all of whose keys have a public key. *)
+Theorem C12_registry_public :
+  forall (schemas : bytes -> option schema),
+    (forall url sch, schemas url = Some sch -> wf_schema sch = true) ->
+    forall (pub_url : bytes -> option (bytes * N)) es,
+      wf_dhandle (registry schemas) es ->
+      (forall e, In e es -> dpub (registry schemas) pub_url (e_key e) <> None) ->
+      exists es', public_handle dkey (dpub (registry schemas) pub_url) es = Some es' /\
+        map e_id es' = map e_id es /\ map e_status es' = map e_status es /\
+        map e_primary es' = map e_primary es /\
+        Forall2 (fun e e' => dpub (registry schemas) pub_url (e_key e) = Some (e_key e')) es es'.
+Proof. exact registry_public. Qed.
+Print Assumptions C12_registry_public.
+
+(* The result of Public() is again a handle of the registry (each public key is
+   in the image of the parser, same prefix and id requirement), provided the
+   (private URL, public URL, public_key field) triples pass the table check
+   pub_tables_ok and the public URL's descriptor is the type of that field. *)
+Theorem C12_registry_public_is_registry_handle :
+  forall (schemas : bytes -> option schema),
+    (forall url sch, schemas url = Some sch -> wf_schema sch = true) ->
+    forall (pub_url : bytes -> option (bytes * N)),
+      (forall url pu pf, pub_url url = Some (pu, pf) -> pub_tables_ok url pu pf = true) ->
+      (forall url pu pf sch, pub_url url = Some (pu, pf) -> schemas url = Some sch ->
+         exists ps, field_type sch pf = Some (TMsg ps) /\ schemas pu = Some ps) ->
+      forall es es',
+        wf_dhandle (registry schemas) es ->
+        public_handle dkey (dpub (registry schemas) pub_url) es = Some es' ->
+        (forall e s, In e es' -> dser (e_key e) = Some s -> N.of_nat (length (ks_value s)) < 2 ^ 64) ->
+        wf_dhandle (registry schemas) es'.
+Proof. exact registry_public_wf. Qed.
+Print Assumptions C12_registry_public_is_registry_handle.
+
+(* ... so the public handle survives the binary writer and reader. *)
+Theorem C12_registry_public_roundtrip :
+  forall (schemas : bytes -> option schema),
+    (forall url sch, schemas url = Some sch -> wf_schema sch = true) ->
+    forall (pub_url : bytes -> option (bytes * N)),
+      (forall url pu pf, pub_url url = Some (pu, pf) -> pub_tables_ok url pu pf = true) ->
+      (forall url pu pf sch, pub_url url = Some (pu, pf) -> schemas url = Some sch ->
+         exists ps, field_type sch pf = Some (TMsg ps) /\ schemas pu = Some ps) ->
+      forall es es',
+        wf_dhandle (registry schemas) es ->
+        public_handle dkey (dpub (registry schemas) pub_url) es = Some es' ->
+        (forall e s, In e es' -> dser (e_key e) = Some s -> N.of_nat (length (ks_value s)) < 2 ^ 64) ->
+        exists b, write_cleartext dkey dser es' = Some b /\
+          (N.of_nat (length b) < 2 ^ 64 -> read_cleartext dkey (dpar (registry schemas)) b = Some es').
+Proof. exact registry_public_roundtrip. Qed.
+Print Assumptions C12_registry_public_roundtrip.
+
+(* The twelve private/public type URL pairs of the repository (with the number
+   of the public_key field) pass the table check. *)
+Theorem C12_public_url_pairs_pass_table_check :
+  forallb (fun x => let '(a, b, c) := x in pub_tables_ok a b c) pub_pairs = true /\ length pub_pairs = 12%nat.
+Proof. split; [exact pub_pairs_ok | reflexivity]. Qed.
+Print Assumptions C12_public_url_pairs_pass_table_check.
+
+(* The premise "known prefix" of wf_dhandle excludes something real: a handle
+   holding a registered ML-DSA key of the variant that is written with
+   OutputPrefixType WITH_ID_REQUIREMENT (5) is legal and is written without
+   error, but the reader refuses the bytes (keyset.Validate only knows TINK,
+   LEGACY, RAW, CRUNCHY).  Confirmed on /repo: harness/cmd/c12probe2. *)
+Theorem C12_with_id_requirement_prefix_keyset_roundtrip_refuted :
+  exists (schemas : bytes -> option schema) (s0 : kser) (k : dkey) (b : bytes),
+    (forall url sch, schemas url = Some sch -> wf_schema sch = true) /\
+    ks_prefix s0 = 5 /\ ks_id s0 = 9 /\
+    dpar (registry schemas) s0 = Some k /\ dser k = Some s0 /\
+    (exists T g, k = DK T g) /\
+    let es := [mkEntry k true 9 Enabled] in
+    new_from_entries dkey es = Some es /\
+    write_cleartext dkey dser es = Some b /\
+    read_cleartext dkey (dpar (registry schemas)) b = None.
+Proof. exact with_id_requirement_keyset_unreadable. Qed.
+Print Assumptions C12_with_id_requirement_prefix_keyset_roundtrip_refuted.
+
+(* non-vacuity at the registry: handle A = an AES-GCM key (registered type, read
+   from a LEGACY serialisation, id 7, written back as CRUNCHY) and a key of an
+   unregistered type as primary; the write/read equations hold by computation,
+   with a toy AEAD that binds the associated data *)
+Example C12_nonvacuous_registry_handle :
+  (forall url sch, ex_schemas url = Some sch -> wf_schema sch = true) /\
+  wf_dhandle (registry ex_schemas) exA_es /\
+  (forall ad p, toy_dec ad (toy_enc ad p) = Some p) /\
+  exA_k1 = DK (match registry ex_schemas aesgcm_url with Some T => T | None => mkKtype SNil PIgnored NKNone end)
+              (mkGkey aesgcm_url 1 2 7 [VInt 0; VBytes [1; 2; 3; 4; 5; 6; 7; 8; 9; 10; 11; 12; 13; 14; 15; 16]]) /\
+  option_map ks_prefix (dser exA_k1) = Some 4 /\
+  write_cleartext dkey dser exA_es = Some exA_clear /\
+  read_cleartext dkey (dpar (registry ex_schemas)) exA_clear = Some exA_es /\
+  write_encrypted dkey dser toy_enc exA_es [1; 2; 3] = Some exA_enc /\
+  read_encrypted dkey (dpar (registry ex_schemas)) toy_dec exA_enc [1; 2; 3] = Some exA_es /\
+  read_encrypted dkey (dpar (registry ex_schemas)) toy_dec exA_enc [1; 2; 4] = None.
+Proof.
+  split; [exact ex_schemas_wf|]. split; [exact exA_wf|]. split; [exact toy_aead_correct | exact exA_facts].
+Qed.
+
+(* both exceptions in the conclusion of C12_registry_key_reserializes occur: the
+   LEGACY AES-GCM key above comes back as CRUNCHY, and a streaming AEAD key read
+   from a TINK serialisation with id 5 comes back as RAW without id *)
+Example C12_nonvacuous_streaming_key_comes_back_raw :
+  dpar (registry ex_schemas) exD_s = Some exD_k /\
+  (exists T g, exD_k = DK T g /\ kt_prefix T = PIgnored) /\
+  option_map (fun s => (ks_prefix s, ks_id s)) (dser exD_k) = Some (3, 0) /\
+  option_map (dpar (registry ex_schemas)) (dser exD_k) = Some (Some exD_k).
+Proof. exact exD_facts. Qed.
+
+(* handle B = a P-256 ECDSA private key given with un-normalised integers;
+   Public() yields the normalised public key, the laws on the URL pair hold,
+   the public handle is a registry handle and survives write/read *)
+Example C12_nonvacuous_registry_public :
+  wf_dhandle (registry ex_schemas) exB_es /\
+  (forall url pu pf, ex_pub_url url = Some (pu, pf) -> pub_tables_ok url pu pf = true) /\
+  (forall url pu pf sch, ex_pub_url url = Some (pu, pf) -> ex_schemas url = Some sch ->
+     exists ps, field_type sch pf = Some (TMsg ps) /\ ex_schemas pu = Some ps) /\
+  wf_dhandle (registry ex_schemas) exB_pub /\
+  public_handle dkey (dpub (registry ex_schemas) ex_pub_url) exB_es = Some exB_pub /\
+  map (fun e => match e_key e with DK _ g => Some (gk_fields g) | DFallback _ => None end) exB_pub
+    = [Some ex_ecdsa_nf] /\
+  write_cleartext dkey dser exB_pub = Some exB_pub_clear /\
+  read_cleartext dkey (dpar (registry ex_schemas)) exB_pub_clear = Some exB_pub.
+Proof.
+  split; [exact exB_wf|]. split; [exact ex_pub_url_tables|]. split; [exact ex_pub_url_schema|].
+  split; [exact exB_public_wf | exact exB_facts].
+Qed.
+
+(* ================================================================== *)
+(* bridge to C13: the two transcriptions of proto.Marshal agree        *)
+(* ================================================================== *)
+(* The keyset encoder of model/Secrets.v (C13, written field by field for the
+   writers) produces exactly the bytes of the generic protobuf encoder on the
+   tink.proto Keyset schema (write_keyset), for every keyset without nil keys;
+   hence the generic reader reads them back.  (Required, not imported:
+   model/Untrusted.v and model/Serial.v both define pkey / keyset.) *)
+From Tink Require SecretsSerialBridge.
+Theorem C12_secrets_writer_bytes_are_the_generic_encoding :
+  forall pr pks,
+    Secrets.ser_keyset (Untrusted.mkKS pr (map Some pks)) = write_keyset (SecretsSerialBridge.to_pkeyset pr pks).
+Proof. exact SecretsSerialBridge.ser_keyset_is_write_keyset. Qed.
+Print Assumptions C12_secrets_writer_bytes_are_the_generic_encoding.
+
+Theorem C12_generic_reader_reads_secrets_writer_bytes :
+  forall pr pks,
+    wf_pkeyset (SecretsSerialBridge.to_pkeyset pr pks) = true ->
+    N.of_nat (length (Secrets.ser_keyset (Untrusted.mkKS pr (map Some pks)))) < 2 ^ 64 ->
+    read_keyset (Secrets.ser_keyset (Untrusted.mkKS pr (map Some pks))) = Some (SecretsSerialBridge.to_pkeyset pr pks).
+Proof. exact SecretsSerialBridge.generic_reader_reads_ser_keyset. Qed.
+Print Assumptions C12_generic_reader_reads_secrets_writer_bytes.
